@@ -21,4 +21,7 @@ let table : (string * (BinNums.coq_N list -> BinNums.coq_N list)) list = [
   ("chk_pair", MonPair.chk_pair);
   ("chk_c18", PropsCorr.chk_c18);
   ("mon_c18", PropsCorr.mon_c18);
+  ("chk_pk", PkCorr.chk_pk);
+  ("mon_c02", PkCorr.mon_c02);
+  ("mon_c03", PkCorr.mon_c03);
 ]
